@@ -694,6 +694,63 @@ func recordC03(env *Env) {
 	for _, e := range evs {
 		env.emit(e)
 	}
+	// Pool and the multi-file reader number their output with a shared counter: 16 streams of one-record batches
+	// pushed at full speed, several rounds; a round is bad when the numbers that come out are not 0..N-1 once each
+	{
+		rounds, streams, per := env.optInt("poolrounds", 12), 16, 1500
+		bad := 0
+		for r := 0; r < rounds; r++ {
+			srcs := make([]obiiter.IBioSequence, streams)
+			for k := range srcs {
+				sizes := make([]int, per)
+				for j := range sizes {
+					sizes[j] = 1
+				}
+				srcs[k] = source(batchesOf(sizes, 0), ident(per))
+			}
+			var it obiiter.IBioSequence
+			if r%2 == 0 {
+				it = srcs[0].Pool(srcs[1:]...)
+			} else {
+				names := make([]string, streams)
+				byName := map[string]obiiter.IBioSequence{}
+				for k := range names {
+					names[k] = "s" + strconv.Itoa(k)
+					byName[names[k]] = srcs[k]
+				}
+				reader := func(name string, _ ...obiformats.WithOption) (obiiter.IBioSequence, error) { return byName[name], nil }
+				it = obiformats.ReadSequencesBatchFromFiles(names, reader, 8)
+			}
+			seen := make([]int, streams*per)
+			ok := true
+			done := make(chan struct{})
+			go func() {
+				defer close(done)
+				for it.Next() {
+					o := it.Get().Order()
+					if o < 0 || o >= len(seen) {
+						ok = false
+						continue
+					}
+					seen[o]++
+				}
+			}()
+			if !waitTimeout(done, 60*time.Second) {
+				ok = false
+			} else {
+				for _, c := range seen {
+					if c != 1 {
+						ok = false
+					}
+				}
+			}
+			if !ok {
+				bad++
+			}
+		}
+		env.emit(streamEvent{Op: "poolstress", Sizes: []int{streams, per, rounds}, Sizes2: []int{}, Sizes3: []int{}, Keep: []int{}, Push: []int{},
+			Out: []outBatch{}, W: bad})
+	}
 }
 
 func randSizes(env *Env, n int) []int {
